@@ -202,6 +202,9 @@ def _constant_value_of_function(function, bindings):
         # Python's max([1, 2]) == 2; max(1, 2) == 2; max([1]) == 1; but max(1)
         # throws a TypeError ("'int' object is not iterable").
         ir_data.FunctionMapping.MAXIMUM: lambda *x: max(x),
+        # The bounds of a constant are the constant itself.
+        ir_data.FunctionMapping.UPPER_BOUND: lambda x: x,
+        ir_data.FunctionMapping.LOWER_BOUND: lambda x: x,
     }
     return functions[function.function](*values)
 
